@@ -71,7 +71,15 @@ int pika_main(int argc, char** argv)
         o << "]}";
     }
     o << "]";
-    o << ",\"stack\":" << pika::this_thread::get_stack_size();
+    {
+        // stack size of a default task (the entry function itself runs on a larger stack)
+        namespace ex = pika::execution::experimental;
+        namespace tt = pika::this_thread::experimental;
+        std::ptrdiff_t st = 0;
+        tt::sync_wait(ex::schedule(ex::thread_pool_scheduler{}) |
+            ex::then([&] { st = pika::this_thread::get_stack_size(); }));
+        o << ",\"stack\":" << st;
+    }
     o << ",\"cfg\":{";
     bool first = true;
     for (auto const& k : g_keys)
